@@ -191,6 +191,15 @@ func genMsg(r *rand.Rand, kind string, tag int) *dynamicpb.Message {
 			if pad > 0 {
 				setStr(m, "parent", strings.Repeat("p", pad))
 			}
+		} else if n, ok := strings.CutPrefix(kind, "negs:"); ok {
+			// n negative int32 values: 3 characters each in JSON, 10 bytes each in the binary form (the one
+			// direction in which re-encoding JSON as binary makes a message grow)
+			var size int
+			fmt.Sscanf(n, "%d", &size)
+			nums := m.Mutable(fd(m, "nums")).List()
+			for i := 0; i < size; i++ {
+				nums.Append(protoreflect.ValueOfInt32(-1))
+			}
 		} else if n, ok := strings.CutPrefix(kind, "zeros:"); ok {
 			var size int
 			fmt.Sscanf(n, "%d", &size)
